@@ -200,7 +200,7 @@ func TestKnown(t *testing.T)  { kit.RunKnown(t) }
 func TestReplay(t *testing.T) { kit.RunReplay(t) }
 
 func TestFaults(t *testing.T) {
-	kit.Rapid(t, "faults", 1200, 40000, func(t *rapid.T) {
+	kit.Rapid(t, "faults", 1200, 80000, func(t *rapid.T) {
 		cfg := gen.DrawConfig(t, gen.ConfigOpts{})
 		src, class := gen.Doc(t, gen.Any, 24, "d")
 		c := kit.NewCase("faults", cfg.String()).B("src", src)
